@@ -152,20 +152,17 @@ def validateErr (d : Dist) (ns ncb : Bool) (fs : List Bool) (raw : List RawEv) (
     let s ← feedE c.estep evs 0 { c.einit with base := c.initFrom fs1 }
     if LCfg.efinal s then return persist d.nFences s.base.fence else throw "log ends in a non-final state"
 
-/-- the refined event list (combine phase in detail).  With hook H2b the lock events are in the log (20 acquired,
-21 about to release); otherwise the mutex probe of the instrumented job (14: held while the body runs) stands in:
+/-- the refined event list (combine phase in detail).  The lock is observed by the instrumented job's mutex probe
+(kind 14: `try_lock` on `_thread_mutex` from inside the body of `combine()` must fail, i.e. the mutex is really held):
 `combine enter` = lock ; body begins, `combine leave` = body ends ; unlock.  A body that runs without the mutex is
 rejected. -/
 def toXEvs (bind : Nat → Nat) (raw : List RawEv) : Except String (List XEv) := do
-  let h2b := raw.any (·.kind = 20)
   let mut out : List XEv := []
   for e in raw do
     let t := bind e.t
     match e.kind with
-    | 20 => out := out ++ [XEv.lock t]
-    | 21 => out := out ++ [XEv.unlock t]
-    | 5 => out := out ++ (if h2b then [XEv.cbeg t] else [XEv.lock t, XEv.cbeg t])
-    | 6 => out := out ++ (if h2b then [XEv.cend t] else [XEv.cend t, XEv.unlock t])
+    | 5 => out := out ++ [XEv.lock t, XEv.cbeg t]
+    | 6 => out := out ++ [XEv.cend t, XEv.unlock t]
     | 14 => if e.a = 0 then throw s!"worker {t} runs the body of combine() without holding _thread_mutex"
     | _ => match toEv bind e with
       | some ev => out := out ++ [XEv.base ev]
